@@ -14,7 +14,7 @@ theorem ptrCols_congr {p p' : Ptr} (hid : p'.id = p.id) (hsc : p'.srcCol = p.src
 theorem userProps_iff_lpropCols {p : Ptr} : p.userProps = true ↔ ∃ c, c ∈ p.lpropCols := by
   rw [userProps_iff]
   constructor
-  · rintro ⟨lp, h1, h2⟩; exact ⟨.col lp.id, mem_lpropCols.mpr ⟨lp, h1, h2, rfl⟩⟩
+  · rintro ⟨lp, h1, h2⟩; exact ⟨lp.col, mem_lpropCols.mpr ⟨lp, h1, h2, rfl⟩⟩
   · rintro ⟨c, h⟩
     obtain ⟨lp, h1, h2, _⟩ := mem_lpropCols.mp h
     exact ⟨lp, h1, h2⟩
@@ -104,7 +104,7 @@ theorem step_updType {s : Schema} {c : Catalog} (w : WF s) (he : c.Equiv (layout
     (f : TypeDecl → TypeDecl) (hf : ∀ d, (f d).id = d.id) :
     WF (s.updType t f) ∧ c.Equiv (layout (s.updType t f)) := by
   have hids := updType_typeIds s t f hf
-  refine ⟨⟨w.ids, w.names, ?_, w.lpids⟩, ?_⟩
+  refine ⟨⟨w.ids, w.names, ?_, w.lpids, w.lpnames⟩, ?_⟩
   · intro p hp u hu; rw [hids]; exact w.srcs p hp u hu
   · exact equiv_trans he (layout_congr (by rw [hids]; simp) (fun _ _ => Iff.rfl))
 
@@ -119,7 +119,7 @@ theorem step_createType {s : Schema} {c : Catalog} (w : WF s) (he : c.Equiv (lay
     · exact hfresh (by rw [TName.obj.inj h]; exact List.mem_map_of_mem hd)
     · have := (mem_ptrTables.mp h).2; cases this
   obtain ⟨c1, e1, hT1, hC1⟩ := exec_createTable_new [] false hnt
-  refine ⟨c1, by simp only [execAll_cons _ e1, execAll_nil], ⟨w.ids, w.names, ?_, w.lpids⟩, ?_, ?_⟩
+  refine ⟨c1, by simp only [execAll_cons _ e1, execAll_nil], ⟨w.ids, w.names, ?_, w.lpids, w.lpnames⟩, ?_, ?_⟩
   · intro p hp u hu
     have := w.srcs p hp u hu
     simp only [Schema.typeIds, List.map_append, List.mem_append]
@@ -149,10 +149,11 @@ theorem step_upd {s : Schema} {c : Catalog} (w : WF s) (he : c.Equiv (layout s))
     (hcol : colOf (f p).name (f p).id = colOf p.name p.id)
     (hname : (f p).name = p.name ∨ s.nameUsed p.src (f p).name = false)
     (hlp : ((f p).lprops.map (·.id)).Nodup)
+    (hln : ∀ lp ∈ (f p).lprops, lp.implicitName = false)
     {ops : List Op} (hl : LocalOK p (f p) ops) :
     ∃ c', execAll c ops = some c' ∧ WF (s.updPtr i f) ∧ c'.Equiv (layout (s.updPtr i f)) := by
   obtain ⟨c', e, h⟩ := lift_local w he hf f (hid p) hsrc hcol hl
-  exact ⟨c', e, wf_updPtr w hf f hid hsrc hname hlp, h⟩
+  exact ⟨c', e, wf_updPtr w hf f hid hsrc hname hlp hln, h⟩
 
 theorem step_setSingle {s s' : Schema} {c : Catalog} {ops : List Op} (w : WF s) (he : c.Equiv (layout s))
     (i : Nat) (b : Bool) (hem : emit s (.setSingle i b) = some (s', ops)) :
@@ -173,7 +174,7 @@ theorem step_setSingle {s s' : Schema} {c : Catalog} {ops : List Op} (w : WF s) 
         · rename_i hcond
           simp only [Option.some.injEq, Prod.mk.injEq] at hem
           obtain ⟨rfl, rfl⟩ := hem
-          refine step_upd w he hf (fun q => { q with single := b }) (fun _ => rfl) rfl rfl (Or.inl rfl) hlp ?_
+          refine step_upd w he hf (fun q => { q with single := b }) (fun _ => rfl) rfl rfl (Or.inl rfl) hlp (w.lpnames p hp) ?_
           simp only [Bool.or_eq_true, decide_eq_true_eq] at hcond
           rcases hcond with rfl | hcomp
           · show LocalOK p p []
@@ -198,7 +199,7 @@ theorem step_setSingle {s s' : Schema} {c : Catalog} {ops : List Op} (w : WF s) 
             subst hb
             simp only [Option.some.injEq, Prod.mk.injEq] at hem
             obtain ⟨rfl, rfl⟩ := hem
-            refine step_upd w he hf (fun q => { q with single := true }) (fun _ => rfl) rfl rfl (Or.inl rfl) hlp ?_
+            refine step_upd w he hf (fun q => { q with single := true }) (fun _ => rfl) rfl rfl (Or.inl rfl) hlp (w.lpnames p hp) ?_
             have hs : p.single = false := by cases h : p.single <;> simp_all
             exact local_setSingle_true hsrc hs hcomp hn
           · rename_i hb
@@ -206,7 +207,7 @@ theorem step_setSingle {s s' : Schema} {c : Catalog} {ops : List Op} (w : WF s) 
             subst hb
             simp only [Option.some.injEq, Prod.mk.injEq] at hem
             obtain ⟨rfl, rfl⟩ := hem
-            refine step_upd w he hf (fun q => { q with single := false }) (fun _ => rfl) rfl rfl (Or.inl rfl) hlp ?_
+            refine step_upd w he hf (fun q => { q with single := false }) (fun _ => rfl) rfl rfl (Or.inl rfl) hlp (w.lpnames p hp) ?_
             have hs : p.single = true := by cases h : p.single <;> simp_all
             exact local_setSingle_false hsrc hs hcomp hn
 
@@ -222,7 +223,7 @@ theorem step_setRequired {s s' : Schema} {c : Catalog} {ops : List Op} (w : WF s
     simp only [Option.some.injEq, Prod.mk.injEq] at hem
     obtain ⟨rfl, rfl⟩ := hem
     exact step_upd w he hf (fun q => { q with required := b }) (fun _ => rfl) rfl rfl (Or.inl rfl)
-      (w.lpids p hp) (local_noop rfl (fun _ => Iff.rfl))
+      (w.lpids p hp) (w.lpnames p hp) (local_noop rfl (fun _ => Iff.rfl))
 
 theorem step_renamePtr {s s' : Schema} {c : Catalog} {ops : List Op} (w : WF s) (he : c.Equiv (layout s))
     (i : Nat) (nm : PName) (hsafe : safeStep s (.renamePtr i nm) = true)
@@ -245,7 +246,7 @@ theorem step_renamePtr {s s' : Schema} {c : Catalog} {ops : List Op} (w : WF s) 
       simp only [Option.some.injEq, Prod.mk.injEq] at hem
       obtain ⟨rfl, rfl⟩ := hem
       refine step_upd w he hf (fun q => { q with name := nm }) (fun _ => rfl) rfl hsafe.symm (Or.inr hused)
-        (w.lpids p hp) ?_
+        (w.lpids p hp) (w.lpnames p hp) ?_
       refine local_noop (p := p) (p' := { p with name := nm }) rfl ?_
       refine ptrCols_congr (p := p) (p' := { p with name := nm }) rfl ?_ rfl (fun _ => Iff.rfl)
       unfold Ptr.srcCol
@@ -294,7 +295,7 @@ theorem step_setExpr {s s' : Schema} {c : Catalog} {ops : List Op} (w : WF s) (h
         · simp only [Option.some.injEq, Prod.mk.injEq] at hem
           obtain ⟨rfl, rfl⟩ := hem
           exact step_upd w he hf (fun q => { q with computed := true, single := b }) (fun _ => rfl) rfl rfl
-            (Or.inl rfl) (w.lpids p hp) (local_unstore hd.1 hd.2)
+            (Or.inl rfl) (w.lpids p hp) (w.lpnames p hp) (local_unstore hd.1 hd.2)
         · rename_i hk
           simp only [Option.some.injEq, Prod.mk.injEq] at hem
           obtain ⟨rfl, rfl⟩ := hem
@@ -305,7 +306,7 @@ theorem step_setExpr {s s' : Schema} {c : Catalog} {ops : List Op} (w : WF s) (h
           subst hb
           have := unstoreOps_prop hsrc hcomp hn
           refine step_upd w he hf (fun q => { q with computed := true, single := p.single }) (fun _ => rfl) rfl rfl
-            (Or.inl rfl) (w.lpids p hp) ?_
+            (Or.inl rfl) (w.lpids p hp) (w.lpnames p hp) ?_
           have h2 := local_unstore (p := p) hd.1 hd.2
           rw [this] at h2
           exact h2
@@ -334,7 +335,7 @@ theorem step_resetExpr {s s' : Schema} {c : Catalog} {ops : List Op} (w : WF s) 
         simp only [Option.some.injEq, Prod.mk.injEq] at hem
         obtain ⟨rfl, rfl⟩ := hem
         refine step_upd w he hf (fun q => { q with computed := false }) (fun _ => rfl) rfl rfl
-          (Or.inl rfl) (w.lpids p hp) ?_
+          (Or.inl rfl) (w.lpids p hp) (w.lpnames p hp) ?_
         refine local_store (p := p) (p' := { p with computed := false }) rfl rfl rfl ?_ ?_ hup
         · simp [Ptr.hasTable, hcomp]
         · simp [Ptr.srcCol, hcomp, hsrc]
@@ -382,7 +383,8 @@ theorem find_lp {p : Ptr} {lpid : Nat} {lp : LProp} (h : p.lprops.find? (fun l =
   ⟨List.mem_of_find?_eq_some h, by simpa using List.find?_some h⟩
 
 theorem step_addLProp {s s' : Schema} {c : Catalog} {ops : List Op} (w : WF s) (he : c.Equiv (layout s))
-    (i : Nat) (lp : LProp) (hem : emit s (.addLProp i lp) = some (s', ops)) :
+    (i : Nat) (lp : LProp) (hsafe : safeStep s (.addLProp i lp) = true)
+    (hem : emit s (.addLProp i lp) = some (s', ops)) :
     ∃ c', execAll c ops = some c' ∧ WF s' ∧ c'.Equiv (layout s') := by
   simp only [emit] at hem
   split at hem
@@ -396,6 +398,15 @@ theorem step_addLProp {s s' : Schema} {c : Catalog} {ops : List Op} (w : WF s) (
       obtain ⟨_, hfresh⟩ := hcond
       simp only [Option.some.injEq, Prod.mk.injEq] at hem
       obtain ⟨rfl, rfl⟩ := hem
+      have hplain : lp.implicitName = false := by simpa [safeStep] using hsafe
+      have hcolp : lp.col = .col lp.id := col_of_plain hplain
+      have hpl := w.lpnames p hp
+      have hpl' : ∀ l ∈ p.lprops ++ [lp], l.implicitName = false := by
+        intro l hl
+        rcases List.mem_append.mp hl with h | h
+        · exact hpl l h
+        · rw [List.mem_singleton.mp h]; exact hplain
+      rw [hplain, hcolp]
       have hnd : ((p.lprops ++ [lp]).map (·.id)).Nodup := by
         rw [List.map_append, List.nodup_append]
         refine ⟨w.lpids p hp, by simp, ?_⟩
@@ -403,11 +414,11 @@ theorem step_addLProp {s s' : Schema} {c : Catalog} {ops : List Op} (w : WF s) (
         simp only [List.map_cons, List.map_nil, List.mem_singleton] at hb
         rw [hb]; rintro rfl; exact hfresh ha
       refine step_upd w he hf (fun q => { q with lprops := q.lprops ++ [lp] }) (fun _ => rfl) rfl rfl
-        (Or.inl rfl) hnd ?_
+        (Or.inl rfl) hnd hpl' ?_
       have hcols : ∀ c, c ∈ ({ p with lprops := p.lprops ++ [lp] } : Ptr).lpropCols ↔
           (lp.computed = false ∧ c = .col lp.id) ∨ c ∈ p.lpropCols := by
         intro c
-        rw [mem_lpropCols, mem_lpropCols]
+        rw [mem_lpropCols_plain (p := { p with lprops := p.lprops ++ [lp] }) hpl', mem_lpropCols_plain hpl]
         simp only [List.mem_append, List.mem_singleton]
         constructor
         · rintro ⟨l, hl | rfl, h1, h2⟩
@@ -430,7 +441,7 @@ theorem step_addLProp {s s' : Schema} {c : Catalog} {ops : List Op} (w : WF s) (
             c = .col lp.id ∨ c ∈ p.lpropCols := by
           intro c; rw [hcols, hlc]; simp
         have hnew : CName.col lp.id ∉ p.lpropCols := by
-          rw [mem_lpropCols]
+          rw [mem_lpropCols_plain hpl]
           rintro ⟨l, hl, _, h⟩
           apply hfresh
           rw [CName.col.inj h]
@@ -455,14 +466,19 @@ theorem step_dropLProp {s s' : Schema} {c : Catalog} {ops : List Op} (w : WF s) 
       simp only [Option.some.injEq, Prod.mk.injEq] at hem
       obtain ⟨rfl, rfl⟩ := hem
       have hnd0 := w.lpids p hp
+      have hpl := w.lpnames p hp
+      have hpl' : ∀ l ∈ p.lprops.filter (fun l => l.id ≠ lpid), l.implicitName = false :=
+        fun l hl => hpl l (List.mem_filter.mp hl).1
+      rw [col_of_plain (hpl lp hlp), hlpid]
       have hnd : ((p.lprops.filter (fun l => l.id ≠ lpid)).map (·.id)).Nodup :=
         List.Nodup.sublist (List.Sublist.map _ List.filter_sublist) hnd0
       refine step_upd w he hf (fun q => { q with lprops := q.lprops.filter (fun l => l.id ≠ lpid) })
-        (fun _ => rfl) rfl rfl (Or.inl rfl) hnd ?_
+        (fun _ => rfl) rfl rfl (Or.inl rfl) hnd hpl' ?_
       have hcols : ∀ c, c ∈ ({ p with lprops := p.lprops.filter (fun l => l.id ≠ lpid) } : Ptr).lpropCols ↔
           c ≠ .col lpid ∧ c ∈ p.lpropCols := by
         intro c
-        rw [mem_lpropCols, mem_lpropCols]
+        rw [mem_lpropCols_plain (p := { p with lprops := p.lprops.filter (fun l => l.id ≠ lpid) }) hpl',
+          mem_lpropCols_plain hpl]
         simp only [List.mem_filter, ne_eq, decide_eq_true_eq]
         constructor
         · rintro ⟨l, ⟨hl, hne⟩, h1, rfl⟩
@@ -482,7 +498,7 @@ theorem step_dropLProp {s s' : Schema} {c : Catalog} {ops : List Op} (w : WF s) 
           · intro h
             refine ⟨?_, h⟩
             rintro rfl
-            obtain ⟨l, hl, h1, h2⟩ := mem_lpropCols.mp h
+            obtain ⟨l, hl, h1, h2⟩ := (mem_lpropCols_plain hpl).mp h
             have : l = lp := nodup_lp hnd0 hl hlp (by rw [hlpid]; exact (CName.col.inj h2).symm)
             rw [this, hlc] at h1; cases h1
         have hu := userProps_congr hcols'
@@ -491,7 +507,7 @@ theorem step_dropLProp {s s' : Schema} {c : Catalog} {ops : List Op} (w : WF s) 
         exact local_noop hht (ptrCols_congr rfl rfl hht hcols')
       | false =>
         simp only [Bool.false_eq_true, if_false]
-        have hold : CName.col lpid ∈ p.lpropCols := mem_lpropCols.mpr ⟨lp, hlp, hlc, by rw [hlpid]⟩
+        have hold : CName.col lpid ∈ p.lpropCols := (mem_lpropCols_plain hpl).mpr ⟨lp, hlp, hlc, by rw [hlpid]⟩
         exact local_lpropUnstore (p := p) (p' := { p with lprops := p.lprops.filter (fun l => l.id ≠ lpid) })
           rfl rfl hcols hold
           (hasTable_mono (p' := p) (p := { p with lprops := p.lprops.filter (fun l => l.id ≠ lpid) })
